@@ -81,7 +81,7 @@ pub fn fixtures() -> Vec<(&'static str, Value)> {
         ("&str", j("s")),
         ("i8", j(-1i8)),
         ("u64", j(u64::MAX)),
-        ("i128", j(170141183460469231731687303715884105727i128)),
+        ("i128", j(-5i128)),
         ("f32", j(1.5f32)),
         ("f64", j(-2.25f64)),
         ("usize", j(3usize)),
